@@ -89,6 +89,18 @@ def sigGoodOf (c : Case) : Bool :=
   (c.flavor = "good" || c.flavor = "ht2" || (c.flavor = "wrongamt" && !wit)) &&
   (isCompressedPk c.pk || (!wit && isUncompressedPk c.pk))
 
+def hasInfix (needle : Bytes) : Bytes → Bool
+  | [] => needle.isEmpty
+  | b :: rest => needle.isPrefixOf (b :: rest) || hasInfix needle rest
+
+/-- the script embeds depositor, blinding factor and (if present) the extra data as dropped pushes -/
+def embedsFields (d : Deposit) (script : Bytes) : Bool :=
+  ([0x14] ++ d.depositor ++ [0x75]).isPrefixOf script &&
+  hasInfix ([0x08] ++ d.blinding ++ [0x75]) script &&
+  (match d.extra with
+   | some e => hasInfix ([0x75, 0x20] ++ e ++ [0x75, 0x08]) script
+   | none => hasInfix ([0x14] ++ d.depositor ++ [0x75, 0x08]) script)
+
 def monitor (op obs : String) : String :=
   match parseCase op with
   | none => "FAIL bad-op"
@@ -98,9 +110,18 @@ def monitor (op obs : String) : String :=
     else if c.dep.depositor.length ≠ 20 then "FAIL script-built-for-invalid-depositor"
     else
       match splitWs obs with
-      | [_, _, verdict] =>
+      | [scr, lock, verdict] =>
         let acc := verdict = "accept"
+        let scriptB := parseHex ((scr.drop 7).toString)
+        let lockB := parseHex ((lock.drop 5).toString)
+        let expectLock := if c.nested then p2sh c.sh2 else lockingScript c.kind c.sh
         if !acc && !verdict.startsWith "reject:" then "FAIL unparsable-observation"
+        else if !scr.startsWith "script=" || !lock.startsWith "lock=" then "FAIL unparsable-observation"
+        else if (scriptB.map (embedsFields c.dep)) != some true then
+          "FAIL script-does-not-embed-depositor-blinding-extra-data"
+        else if lockB != some expectLock then
+          -- the output the depositor funded (hash of the specified script) is not the one generated
+          "FAIL locking-script-differs-from-funded-deposit-output"
         else if holds c.dep c.pkh (sigGoodOf c) c.txLock c.seq acc then "ok"
         else
           match role c.dep c.pkh with
